@@ -265,11 +265,11 @@ public:
             m_fac_f.noalias() = w - Vs * h;
             m_beta = m_op.norm(m_fac_f);
 
-            if (m_beta > RealScalar(0.717) * m_op.norm(h))
-                continue;
-
             // f/||f|| is going to be the next column of V, so we need to test
             // whether (V^H)B(f/||f||) ~= 0
+            // The test is made in every step: comparing ||f|| with ||h|| instead lets a small
+            // loss of orthogonality in V pass into the new column amplified, and over many
+            // restarts V'V drifts away from the identity
             m_op.adjoint_product(Vs, m_fac_f, Vf.head(i1));
             RealScalar ortho_err = Vf.head(i1).cwiseAbs().maxCoeff();
             // If not, iteratively correct the residual
